@@ -59,6 +59,10 @@ def shards_for(tier, seed, prop):
                     out.append({"prop": prop, "N": N, "fs": fs, "tier": tier, "olap_idx": [oi]})
             else:
                 out.append({"prop": prop, "N": N, "fs": fs, "tier": tier})
+    if tier == "quick":  # a few configurations at realistic record lengths (the thorough tier sweeps them)
+        for N in (60000, 100000):
+            for olap in (0.5, 0.75):
+                out.append({"prop": prop, "N": N, "fs": 2.0, "tier": tier, "spot": True, "olap": olap})
     out.sort(key=lambda s: -s["N"])
     return out
 
@@ -182,11 +186,14 @@ def run_shard_for(shard):
         olaps = [0.0, 0.5, 0.5, 0.75, 0.75, 0.99, 0.99, 0.0]  # 4 distinct values (indexable by olap_idx)
     if "olap_idx" in shard:
         olaps = sorted({olaps[i] for i in shard["olap_idx"]})
+    spot = shard.get("spot")
+    if spot:
+        olaps, Jd, Kd = [shard["olap"]], [50, 500], [10, 100]
     evals = nontriv = rejected = 0
     fails, samples = [], []
     seen = set()
     nbins = 0
-    for olap, bmin, Lmin, J, K in itertools.product(olaps, bmins(N), lmins(N), Jd, Kd):
+    for olap, bmin, Lmin, J, K in itertools.product(olaps, bmins(N) if not spot else [1.0, 3.7], lmins(N) if not spot else [1, 1000], Jd, Kd):
         cfg = {"N": N, "fs": fs, "olap": olap, "bmin": bmin, "Lmin": Lmin, "Jdes": J, "Kdes": K}
         if not spec.admissible(cfg):
             rejected += 1
